@@ -199,6 +199,29 @@ func c04Case(c *mon.Ctx, r *mon.Rand) {
 			continue
 		}
 		checkArgs("after first use")
+		// a test scope's snapshot hands out copies: whatever a consumer does to the
+		// tag maps of its entries, the scopes keep their tags
+		if ts != nil {
+			snap := ts.Snapshot()
+			vandal := func(m map[string]string) {
+				for k := range m {
+					m[k] = "SCRUBBED-IN-A-SNAPSHOT"
+				}
+				m["added-to-a-snapshot"] = "x"
+			}
+			for _, x := range snap.Counters() {
+				vandal(x.Tags())
+			}
+			for _, x := range snap.Gauges() {
+				vandal(x.Tags())
+			}
+			for _, x := range snap.Timers() {
+				vandal(x.Tags())
+			}
+			for _, x := range snap.Histograms() {
+				vandal(x.Tags())
+			}
+		}
 		// the harness now vandalises the maps it handed in
 		for k := range rootTagsArg {
 			rootTagsArg[k] = "MUTATED"
